@@ -20,7 +20,7 @@ for pid in sorted(P.PROPS):
         evidence_file='/verif/evidence/%s.json' % pid,
         replay_cmd_template='./check %s --replay {path}' % pid,
         engine='verus+kani',
-        level_claimed=dict(category=spec.get('level', 'proof'), text=t['level'], design_ref=t.get('design_ref', 'DESIGN.md 8')),
+        level_claimed=dict(category=spec.get('level', 'proof'), text=t['level'] + getattr(T, 'EXTRA', {}).get(pid, ''), design_ref=t.get('design_ref', 'DESIGN.md 8')),
         level_note=t['note'],
         technique=t['technique'],
     ))
